@@ -286,15 +286,15 @@ func DecodeIndex(data []byte, base int64, times, keys bool) (v int, items []Item
 }
 
 // DeriveIndex computes the index of a log file from its records: ts is the running maximum
-// of the record times within the file (starting at 0), hash is FNV-1a-64 of the key.
+// of the record times within the file, hash is FNV-1a-64 of the key.
 func DeriveIndex(recs []Rec, times, keys bool) []Item {
 	var out []Item
 	var prev int64
-	for _, r := range recs {
+	for i, r := range recs {
 		it := Item{Off: r.Off, Pos: r.Pos}
 		if times {
 			it.TS = r.US
-			if prev > it.TS {
+			if i > 0 && prev > it.TS {
 				it.TS = prev
 			}
 			prev = it.TS
